@@ -634,6 +634,97 @@ def check_forward(exp, events):
     return None
 
 
+def render_message(s: Shape, idx: int):
+    """C19 driver: three failing calls (no clause at all, unordered pattern rejecting, ordered pattern rejecting);
+    the panic texts must render the call as Trait::method(Debug of every argument, `?` for non-Debug types)."""
+    kinds = [KINDS[p] for p in s.params]
+    decls = "\n        ".join(k.decl.replace("{i}", str(i)).replace("{v}", str(value_of(i))) for i, k in enumerate(kinds))
+    args = ", ".join(k.arg.replace("{i}", str(i)) for i, k in enumerate(kinds))
+    pre, recv = call_prefix(s)
+    call = f"{recv}.m({args})"
+    if any(k.generic == "trait" for k in kinds):
+        call = f"Tr::<u16>::m({'&' if s.receiver == 'ref' else ('&mut ' if s.receiver == 'mut' else '')}{recv}, {args})" \
+            if s.receiver in ("ref", "mut") else f"Tr::<u16>::m({recv}, {args})"
+    # rustc's own Debug at the call site (for the kinds that implement it)
+    dbg = []
+    for i, k in enumerate(kinds):
+        if k.debug:
+            canon = k.canon_c.replace("{i}", str(i))
+            if k.name == "opt_ref":
+                dbg.append(f'format!("{{:?}}", Some({canon}))')
+            else:
+                dbg.append(f'format!("{{:?}}", {canon})')
+        else:
+            dbg.append('String::from("?")')
+    reject = matcher_closure(s, idx, accept="false", log=False)
+    scenarios = [
+        ("no_clause", "Unimock::new(())"),
+        ("unordered_reject", f"Unimock::new({mockfn_expr(s)}.each_call({reject}).answers({answer_closure(s, idx) if s.ret != 'param_ref' else '&ans_%d' % idx}))"),
+        ("ordered_reject", f"Unimock::new({mockfn_expr(s)}.next_call({reject}).answers({answer_closure(s, idx) if s.ret != 'param_ref' else '&ans_%d' % idx}))"),
+    ]
+    blocks = []
+    for name, mk in scenarios:
+        blocks.append(f"""
+    {{
+        {decls}
+        let u = {mk}.no_verify_in_drop();
+        {pre}
+        let dbg: Vec<String> = vec![{', '.join(dbg)}];
+        let r = std::panic::catch_unwind(std::panic::AssertUnwindSafe(move || {{ let _ = {call}; }}));
+        match r {{
+            Ok(()) => ev({idx}, "no_panic_{name}", &[], &[]),
+            Err(p) => {{
+                let mut probes = vec![panic_text(p)];
+                probes.extend(dbg);
+                ev({idx}, "panic_{name}", &probes, &[]);
+            }}
+        }}
+    }}""")
+    text = f"""// message shape {idx}: {s.key()}
+use super::support::*;
+use unimock::*;
+
+{render_trait(s, idx)}
+{answer_fn_item(s, idx) if s.ret == "param_ref" else ""}
+pub fn run() {{
+{''.join(blocks)}
+}}
+"""
+    exp = {"idx": idx, "mode": "message", "shape": json.loads(s.key()),
+           "debug": [py_debug(k, i) for i, k in enumerate(kinds)],
+           "scenarios": [n for n, _ in scenarios]}
+    return text, exp
+
+
+def check_message(exp, events):
+    import re
+    ansi = re.compile(r"\x1b\[[0-9;]*m")
+    by = {e["k"]: e for e in events}
+    if "driver_panic" in by:
+        return f"driver panicked: {by['driver_panic']['p']}"
+    needles = {"no_clause": "No mock implementation found", "unordered_reject": "No matching call patterns",
+               "ordered_reject": "inputs didn't match"}
+    for name in exp["scenarios"]:
+        e = by.get(f"panic_{name}")
+        if e is None:
+            return f"{name}: the call did not panic (events {[x['k'] for x in events]})"
+        text = ansi.sub("", e["p"][0])
+        rust_dbg = e["p"][1:]
+        want = [d if d is not None else "?" for d in exp["debug"]]
+        if rust_dbg != want:
+            return f"harness bug: rustc Debug {rust_dbg} vs generator {want}"
+        call = "Tr::m(" + ", ".join(want) + ")"
+        if not text.startswith(call + ":"):
+            # known finding F4: a `&mut T<'_>` argument is rendered as the placeholder `Impossible`
+            alt = ["Impossible" if p == "mut_wr" else w for p, w in zip(exp["shape"][1], want)]
+            if alt != want and text.startswith("Tr::m(" + ", ".join(alt) + "):"):
+                return f"F4:{name}: a `&mut Wr<'_>` argument is rendered as `Impossible` instead of its Debug rendering / `?`: {text[:160]!r}"
+            return f"{name}: message does not render the call as {call!r}: {text[:240]!r}"
+        if needles[name] not in text:
+            return f"{name}: unexpected error kind: {text[:240]!r}"
+    return None
+
+
 # ------------------------------------------------------------------------------------------------
 # crate assembly, build, run
 
